@@ -1,5 +1,59 @@
+/-
+  C15 — allocation failure is reported and leaves containers unchanged and valid.
+
+  Tree table (this file). `plan i` says whether the i-th allocation attempt inside the call
+  fails; the `…F` forms (Tree/Fault.lean) mirror the order of calloc/qmemdup calls of the C
+  functions and are tied to the code by the fault-enumeration correspondence (the harness
+  fails exactly that allocation through harness/allocwrap.h and reports the number of
+  attempts, which must equal the model's).  Other containers: see DESIGN.md section 7/C15 —
+  their failure paths are covered by the correspondence and oracle only in this revision.
+-/
 import QlibcModel.Tree.FaultSpec
-import QlibcModel.Tree.History
+import QlibcModel.Tree.ByteCmp
+
 namespace Qlibc.Props.C15
-theorem placeholder : True := trivial
+open Qlibc Qlibc.Tree Qlibc.Tree.T
+variable {K V : Type} (cmp : K → K → Ordering) (isEmpty : V → Bool)
+
+/-- put under ANY allocation plan: the call returns (no fault, no crash), the table invariant
+    (search order, LLRB shape, exact count) still holds; if it reports failure the contents and
+    the key count are exactly what they were before; if it reports success it is the plain put -/
+theorem put_fault_atomic (hc : CmpOk cmp) (plan : Plan) (s : Tbl K V) (k : K) (v : V) (hi : s.Inv cmp) :
+    ∃ s' r n, s.putobjF cmp isEmpty plan k v = .ok (s', r, n) ∧ s'.Inv cmp ∧
+      (r = false → s'.abs = s.abs ∧ s'.num = s.num) ∧
+      (r = true → s.putobj cmp isEmpty k v = .ok (s', true)) :=
+  Tbl.putobjF_spec cmp isEmpty hc plan s k v hi
+
+/-- with no failing allocation the plan form is the ordinary operation -/
+theorem put_no_fault (s : Tbl K V) (k : K) (v : V) :
+    (s.putobjF cmp isEmpty noFail k v).map (fun r => (r.1, r.2.1)) = s.putobj cmp isEmpty k v :=
+  Tbl.putobjF_noFail cmp isEmpty s k v
+
+/-- a failed insertion restructures at most: whatever the tree, the in-order sequence is kept -/
+theorem failed_insert_keeps_contents {α : Type} (key : α → K) (k : K) (fuel : Nat) (t : T α) (res : T α × Bool)
+    (h : put cmp key k none id fuel t = .ok res) : inorder res.1 = inorder t ∧ res.2 = false :=
+  put_none_inorder k fuel t res h
+
+/-- a copying get under any plan returns either nothing (reported failure) or the stored value;
+    it cannot change the table (it returns a value only) -/
+theorem get_fault (plan : Plan) (s : Tbl K V) (k : K) :
+    (s.getobjF cmp isEmpty plan k).1 = none ∨ (s.getobjF cmp isEmpty plan k).1 = s.getobj cmp k :=
+  Tbl.getobjF_result cmp isEmpty plan s k
+
+/-- removal allocates nothing (the successor's buffers are moved, not copied): it has no
+    failure mode -/
+theorem remove_needs_no_allocation (hc : CmpOk cmp) (s : Tbl K V) (k : K) (hi : s.Inv cmp) :
+    ∃ s', s.removeobj cmp k = .ok (s', (removeSpec cmp k s.abs).2) ∧ s'.Inv cmp :=
+  let ⟨s', h1, h2, _, _⟩ := Tbl.removeobj_spec cmp hc s k hi
+  ⟨s', h1, h2⟩
+
+/-- nothing is leaked: the number of live blocks is a function of the contents, so equal
+    contents (a reported failure) means an equal number of live blocks -/
+theorem no_leak_on_failure (s s' : Tbl K V) (h : s.abs = s'.abs) : s.live isEmpty = s'.live isEmpty :=
+  Tbl.live_congr isEmpty s s' h
+
+-- non-vacuity: a failing plan on a real table
+example : ∃ s' n, (Tbl.init : Tbl Bytes Bytes).putobjF byteCmp (·.isEmpty) (fun i => i == 2) [1] [7] = .ok (s', false, n) ∧ n = 3 :=
+  ⟨_, _, rfl, rfl⟩
+
 end Qlibc.Props.C15
